@@ -497,12 +497,17 @@ def _handle_for(fs, raw, chain_prefix, h):
     return h if chain_prefix is None else File(fs, h.path, h)
 
 
-def _sub_op(fs, sub: str, path: str, data: list, walk_limit: int) -> str:
+def _sub_op(fs, sub: str, path: str, data: list, walk_limit: int, answers: list | None = None) -> str:
     """One plain operation, used by the history op after_loose on both filesystems."""
     if sub == 'contains':
-        return str(path in fs)
+        r = path in fs
+        if r and answers is not None:
+            answers.append('contains')
+        return str(r)
     if sub == 'getitem':
         f = fs[path]
+        if answers is not None:
+            answers.append('getitem')
         with f.open_bin() as fh:
             data.append(fh.read().decode())
         f.cache_key()
@@ -545,6 +550,7 @@ def run_op(base: str, root_spec: str, chain_prefix, op: str, path_t: str) -> dic
     old = os.getcwd()
     os.chdir(base)
     data: list[str] = []
+    answers: list[str] = []     # positive answers of the constrained filesystem about this name: `in` said True, [] returned a File
     try:
         fs, raw = make_fs(base, root_spec, chain_prefix)
         root = raw.path
@@ -586,9 +592,10 @@ def run_op(base: str, root_spec: str, chain_prefix, op: str, path_t: str) -> dic
                 if prep is not None:
                     out = prep
                 elif op == 'contains':
-                    out = 'ok:' + str(path in fs)
+                    out = 'ok:' + _sub_op(fs, 'contains', path, data, 0, answers)
                 elif op == 'getitem':
                     f = fs[path]
+                    answers.append('getitem')
                     with f.open_bin() as fh:
                         data.append(fh.read().decode())
                     with f.open_str() as fh2:
@@ -618,7 +625,7 @@ def run_op(base: str, root_spec: str, chain_prefix, op: str, path_t: str) -> dic
                     done = []
                     for sub in SUB_OPS:
                         try:
-                            done.append(sub + '=' + _sub_op(fs, sub, path, data, 60))
+                            done.append(sub + '=' + _sub_op(fs, sub, path, data, 60, answers))
                         except RootEscapeError:
                             pass
                         except (OSError, ValueError, UnicodeError) as e:
@@ -667,11 +674,16 @@ def run_op(base: str, root_spec: str, chain_prefix, op: str, path_t: str) -> dic
     escapes = [(k, p) for k, p in events if not is_inside(root, p) and not p.startswith(ignore)]
     leaked = [d.strip() for d in data if d.startswith('CONTENT-OF:')
               and not is_inside(root, os.path.join(base, d.strip()[len('CONTENT-OF:'):]))]
+    # an existence test / lookup that answers (instead of raising) about a name that lexically leads out of the root has
+    # told the caller something about the outside, even when a cache made the OS call unnecessary
+    target = os.path.normpath(os.path.join(root, chain_prefix or '', path.replace('\\', '/')))
+    answered_outside = [[a, target] for a in answers if not is_inside(root, target)]
     pre_escapes = 0
     if chain_prefix:
         sub = os.path.join(root, chain_prefix)
         pre_escapes = sum(1 for k, p in events if is_inside(root, p) and not is_inside(sub, p))
     return {'outcome': out, 'root': root, 'events': events, 'escapes': escapes, 'leaked': leaked, 'data': data[:3],
+            'answered_outside': answered_outside,
             'prefix_escapes': pre_escapes, 'handle_path': None if handle is None else handle.path, 'cold_escape': cold_escape}
 
 
@@ -719,15 +731,17 @@ def search_trees(ck: Ck) -> None:
         path = path_t.replace('{BASE}', base)
         if ('..' in path or path.startswith('/') or '\\' in path) and r['events'] or r['outcome'] == 'RootEscapeError':
             ck.seen((label, cp, op, path_t))
-        if not r['escapes'] and not r['leaked']:
+        if not r['escapes'] and not r['leaked'] and not r['answered_outside']:
             return False
-        where = r['escapes'][0][1] if r['escapes'] else os.path.join(base, r['leaked'][0][len('CONTENT-OF:'):])
+        where = r['escapes'][0][1] if r['escapes'] else r['answered_outside'][0][1] if not r['leaked'] \
+            else os.path.join(base, r['leaked'][0][len('CONTENT-OF:'):])
         key = ('handle-' if op.startswith('handle_') else 'history-' if op == 'after_loose' and not r['cold_escape'] else '') + 'escape-' \
             + classify(r['root'], where)
         rep = {'root': root_spec, 'root_config': label, 'chain_prefix': cp, 'op': op, 'path': path_t,
                'file_handle_path': r['handle_path'],
                'outcome': r['outcome'], 'accessed_outside_root': [[k, p.replace(base, '{BASE}')] for k, p in r['escapes'][:4]],
-               'data_returned': r['leaked'][:2], 'how': 'checks.c18.replay: builds the tree TREE under a fresh {BASE} and runs the op'}
+               'data_returned': r['leaked'][:2],
+               'answered_about_outside': [[a, p.replace(base, '{BASE}')] for a, p in r['answered_outside'][:2]], 'how': 'checks.c18.replay: builds the tree TREE under a fresh {BASE} and runs the op'}
         rank = (0 if r['leaked'] else 1, len(path_t))
         n_prev = found[key]['_n'] if key in found else 0
         if key not in found or rank < found[key]['_rank']:
@@ -784,7 +798,8 @@ def search_trees(ck: Ck) -> None:
         rep.pop('_rank', None)
         what = (f'{rep["op"]}({rep["path"]!r}) on RawFileSystem({rep["root"]!r})'
                 + (f' through FileSystemChain prefix {rep["chain_prefix"]!r}' if rep['chain_prefix'] is not None else '')
-                + f' -> {rep["outcome"]}; touched {rep["accessed_outside_root"][:1]} outside the root ({n} such cases)')
+                + f' -> {rep["outcome"]}; touched {rep["accessed_outside_root"][:1]} outside the root'
+                + (f', answered {rep["answered_about_outside"][:1]}' if rep['answered_about_outside'] else '') + f' ({n} such cases)')
         ck.violation(key, what, rep)
     ck.extra['tree_violation_keys'] = sorted(found)
     shutil.rmtree(base_dir, ignore_errors=True)
@@ -1069,8 +1084,10 @@ def replay(data: dict) -> int:
             print('data returned :', out['data'])
             print('accesses      :', [(k, p.replace(base, '{BASE}')) for k, p in out['events']])
             print('outside root  :', [(k, p.replace(base, '{BASE}')) for k, p in out['escapes']])
-            print('VIOLATION reproduced' if out['escapes'] or out['leaked'] else 'no escape on this tree')
-            return 1 if out['escapes'] or out['leaked'] else 0
+            print('answered about:', [(a, p.replace(base, '{BASE}')) for a, p in out['answered_outside']])
+            bad = bool(out['escapes'] or out['leaked'] or out['answered_outside'])
+            print('VIOLATION reproduced' if bad else 'no escape on this tree')
+            return 1 if bad else 0
         finally:
             shutil.rmtree(base_dir, ignore_errors=True)
     if 'path' in r and 'result' in r:
